@@ -68,7 +68,8 @@ inductive SpPc
   | awake                -- took a token; about to read isClosed
   | cnt1                 -- trySpawn under RLock: first jobQueue.Count()
   | cnt2 (n1 : Nat)      -- second jobQueue.Count(), then the standby / maximum / jam rules
-  | computed (e : Nat)   -- RUnlock done (pool.tryspawn.afterRUnlock); unlocked read of workerCount next
+  | computed (e : Nat)   -- RUnlock done (pool.tryspawn.afterRUnlock); unlocked read `workerCount < e` next
+  | enter (e : Nat)      -- the `if` was true; the loop initialiser `i := workerCount` (a second unlocked read) next
   | loop (i e : Nat)     -- `for i < e`: generateWorkerWithMaximum(e) next
   | sleep
   | exited
@@ -110,7 +111,7 @@ inductive Act
   | closeFlag                       -- Close: IsClosed() was false; isClosed.Set(true)
   | closeQueue (keep : Nat)         -- jobQueue.Close(): `keep` jobs stay receivable in the channel
   -- spawn loop
-  | spWake | spCheck | spCnt1 | spCnt2 (jam : Bool) | spRead | spGen | spSleep
+  | spWake | spCheck | spCnt1 | spCnt2 (jam : Bool) | spRead | spInit | spGen | spSleep
   -- external generateWorkerWithMaximum(m) (PreAllocWorkerSize)
   | gen (m : Nat)
   -- notifyWorkers() (called by the setters): posts the spawn token when workerCount < standby or jobs are queued
@@ -235,7 +236,12 @@ def stepPool (c : Cfg) (s : St) : Act → Option St
     | _ => none
   | .spRead =>
     match s.sp with
-    | .computed e => if s.count < e then some { s with sp := .loop s.count e } else some { s with sp := .sleep }
+    | .computed e => if s.count < e then some { s with sp := .enter e } else some { s with sp := .sleep }
+    | _ => none
+  | .spInit =>
+    -- `for i := workerCount; i < e; …`: workerCount is read again; it may have changed since `spRead`
+    match s.sp with
+    | .enter e => if s.count < e then some { s with sp := .loop s.count e } else some { s with sp := .sleep }
     | _ => none
   | .spGen =>
     match s.sp with
@@ -310,7 +316,7 @@ def stepW (c : Cfg) (s : St) : Act → Option St
 def step (c : Cfg) (s : St) (a : Act) : Option St :=
   match a with
   | .submit _ | .sCheck _ | .sOffer _ _ | .sToken _ | .sLoopCheck _ | .sDeadline _ | .deadline _ => stepSub c s a
-  | .closeFlag | .closeQueue _ | .spWake | .spCheck | .spCnt1 | .spCnt2 _ | .spRead | .spGen | .spSleep | .gen _ | .notify | .setHandler _ =>
+  | .closeFlag | .closeQueue _ | .spWake | .spCheck | .spCnt1 | .spCnt2 _ | .spRead | .spInit | .spGen | .spSleep | .gen _ | .notify | .setHandler _ =>
     stepPool c s a
   | _ => stepW c s a
 
